@@ -312,3 +312,343 @@ Definition MSG_UNSER : text := Eval vm_compute in
   (codes "The dictionary set to be reported does not seem to be serializable." ++ [NL])%list.
 Definition MSG_LARGE : text := Eval vm_compute in
   (codes "The dictionary set to be reported is too large." ++ [NL])%list.
+
+(* ==== JSON value layer ====================================================== *)
+(* What a report is made of.  Numbers are carried as their TOKEN (the text
+   Python prints for them: str(int), float.__repr__, NaN, Infinity, -Infinity):
+   the printing of numbers is an oracle, everything else of json.dumps
+   (separators, string escaping with ensure_ascii, nesting) is modelled.
+   numpy scalars have become plain numbers / bools / strings before (np_encoder:
+   obj.item()); dict keys are strings. *)
+Inductive jvalue :=
+| JNull
+| JBool (b : bool)
+| JNum (tok : text)
+| JStr (s : text)
+| JList (l : list jvalue)
+| JDict (kvs : list (text * jvalue)).
+
+(* characters a number token is made of: digits + - . e E and the letters of NaN / Infinity *)
+Definition numchar (c : ch) : bool :=
+  (Z.leb 48 c && Z.leb c 57) || mem_ch c [43; 45; 46; 101; 69; 78; 97; 73; 110; 102; 105; 116; 121].
+(* a token starts with a digit, "-", "N"(aN) or "I"(nfinity) *)
+Definition numstart (c : ch) : bool := (Z.leb 48 c && Z.leb c 57) || mem_ch c [45; 78; 73].
+Definition numtok_ok (t : text) : bool :=
+  match t with [] => false | c :: _ => numstart c && forallb numchar t end.
+(* code points of a Python str *)
+Definition codepoint_ok (c : ch) : bool := Z.leb 0 c && Z.ltb c 1114112.
+
+Fixpoint jwf (v : jvalue) : bool :=
+  match v with
+  | JNull | JBool _ => true
+  | JNum t => numtok_ok t
+  | JStr s => forallb codepoint_ok s
+  | JList l => forallb jwf l
+  | JDict kvs => forallb (fun kv => forallb codepoint_ok (fst kv) && jwf (snd kv)) kvs
+  end.
+
+(* ---- json.dumps (default separators ", " and ": ", ensure_ascii=True) ------ *)
+Definition hexdigit (n : Z) : ch := if Z.ltb n 10 then 48 + n else 87 + n.   (* 0-9 a-f *)
+Definition hex4 (c : Z) : text :=
+  [hexdigit (c / 4096); hexdigit ((c / 256) mod 16); hexdigit ((c / 16) mod 16); hexdigit (c mod 16)].
+Definition esc_u (c : Z) : text := 92 :: 117 :: hex4 c.                       (* \uXXXX *)
+(* json.encoder.py_encode_basestring_ascii: everything outside space..tilde, the
+   quote and the backslash are escaped *)
+Definition escape_char (c : ch) : text :=
+  if Z.eqb c 34 then [92; 34]
+  else if Z.eqb c 92 then [92; 92]
+  else if Z.eqb c 10 then [92; 110]
+  else if Z.eqb c 13 then [92; 114]
+  else if Z.eqb c 9 then [92; 116]
+  else if Z.eqb c 8 then [92; 98]
+  else if Z.eqb c 12 then [92; 102]
+  else if Z.leb 32 c && Z.leb c 126 then [c]
+  else if Z.ltb c 65536 then esc_u c
+  else (esc_u (55296 + (c - 65536) / 1024) ++ esc_u (56320 + (c - 65536) mod 1024))%list.
+Definition dump_string (s : text) : text := (34 :: flat_map escape_char s ++ [34])%list.
+
+Definition SEP_ITEM : text := [44; 32].   (* ", " *)
+Definition SEP_KEY : text := [58; 32].    (* ": " *)
+
+Fixpoint dumps (v : jvalue) : text :=
+  match v with
+  | JNull => [110; 117; 108; 108]
+  | JBool true => [116; 114; 117; 101]
+  | JBool false => [102; 97; 108; 115; 101]
+  | JNum t => t
+  | JStr s => dump_string s
+  | JList l =>
+      (91 :: (fix items (l : list jvalue) : text :=
+                match l with
+                | [] => []
+                | [x] => dumps x
+                | x :: r => dumps x ++ SEP_ITEM ++ items r
+                end) l ++ [93])%list
+  | JDict kvs =>
+      (LBR :: (fix pairs (l : list (text * jvalue)) : text :=
+                 match l with
+                 | [] => []
+                 | [(k, x)] => dump_string k ++ SEP_KEY ++ dumps x
+                 | (k, x) :: r => dump_string k ++ SEP_KEY ++ dumps x ++ SEP_ITEM ++ pairs r
+                 end) kvs ++ [RBR])%list
+  end.
+
+(* the two inner loops under their own names (same functions) *)
+Fixpoint dumps_items (l : list jvalue) : text :=
+  match l with
+  | [] => []
+  | [x] => dumps x
+  | x :: r => (dumps x ++ SEP_ITEM ++ dumps_items r)%list
+  end.
+Fixpoint dumps_pairs (l : list (text * jvalue)) : text :=
+  match l with
+  | [] => []
+  | [(k, x)] => (dump_string k ++ SEP_KEY ++ dumps x)%list
+  | (k, x) :: r => (dump_string k ++ SEP_KEY ++ dumps x ++ SEP_ITEM ++ dumps_pairs r)%list
+  end.
+
+(* ---- json.loads (the part of the grammar dumps produces) --------------------- *)
+Definition hexval (c : ch) : option Z :=
+  if Z.leb 48 c && Z.leb c 57 then Some (c - 48)
+  else if Z.leb 97 c && Z.leb c 102 then Some (c - 87)
+  else if Z.leb 65 c && Z.leb c 70 then Some (c - 55)
+  else None.
+Definition unhex4 (t : text) : option (Z * text) :=
+  match t with
+  | a :: b :: c :: d :: r =>
+      match hexval a, hexval b, hexval c, hexval d with
+      | Some x, Some y, Some z, Some w => Some (4096 * x + 256 * y + 16 * z + w, r)
+      | _, _, _, _ => None
+      end
+  | _ => None
+  end.
+
+Definition is_high (u : Z) : bool := Z.leb 55296 u && Z.leb u 56319.   (* high surrogate *)
+Definition is_low (u : Z) : bool := Z.leb 56320 u && Z.leb u 57343.    (* low surrogate *)
+
+(* string body up to the closing quote; \uD8xx\uDCxx pairs are joined (as json.loads does) *)
+Fixpoint parse_string_body (fuel : nat) (t : text) : option (text * text) :=
+  match fuel with
+  | O => None
+  | S f =>
+      match t with
+      | [] => None
+      | c :: r =>
+          if Z.eqb c 34 then Some ([], r)
+          else if Z.eqb c 92 then
+            match r with
+            | e :: r' =>
+                let simple (x : ch) :=
+                  match parse_string_body f r' with Some (s, rest) => Some (x :: s, rest) | None => None end in
+                if Z.eqb e 34 then simple 34
+                else if Z.eqb e 92 then simple 92
+                else if Z.eqb e 47 then simple 47
+                else if Z.eqb e 110 then simple 10
+                else if Z.eqb e 114 then simple 13
+                else if Z.eqb e 116 then simple 9
+                else if Z.eqb e 98 then simple 8
+                else if Z.eqb e 102 then simple 12
+                else if Z.eqb e 117 then
+                  match unhex4 r' with
+                  | Some (u, r2) =>
+                      let single :=
+                        match parse_string_body f r2 with Some (s, rest) => Some (u :: s, rest) | None => None end in
+                      if is_high u then
+                        match strip_prefix [92; 117] r2 with
+                        | Some r3 =>
+                            match unhex4 r3 with
+                            | Some (lo, r4) =>
+                                if is_low lo then
+                                  match parse_string_body f r4 with
+                                  | Some (s, rest) => Some (65536 + (u - 55296) * 1024 + (lo - 56320) :: s, rest)
+                                  | None => None
+                                  end
+                                else single
+                            | None => single
+                            end
+                        | None => single
+                        end
+                      else single
+                  | None => None
+                  end
+                else None
+            | [] => None
+            end
+          else match parse_string_body f r with Some (s, rest) => Some (c :: s, rest) | None => None end
+      end
+  end.
+
+(* maximal run of number characters *)
+Fixpoint span_num (t : text) : text * text :=
+  match t with
+  | c :: r => if numchar c then let '(a, b) := span_num r in (c :: a, b) else ([], t)
+  | [] => ([], [])
+  end.
+
+Fixpoint parse_value (fuel : nat) (t : text) : option (jvalue * text) :=
+  match fuel with
+  | O => None
+  | S f =>
+      match t with
+      | [] => None
+      | c :: r =>
+          if Z.eqb c 34 then
+            match parse_string_body (List.length r + 1) r with Some (s, rest) => Some (JStr s, rest) | None => None end
+          else if Z.eqb c 91 then
+            match strip_prefix [93] r with
+            | Some rest => Some (JList [], rest)
+            | None =>
+                match
+                (fix items (n : nat) (t : text) : option (list jvalue * text) :=
+                   match n with
+                   | O => None
+                   | S n' =>
+                       match parse_value f t with
+                       | Some (x, t') =>
+                           match strip_prefix [93] t' with
+                           | Some rest => Some ([x], rest)
+                           | None =>
+                               match strip_prefix SEP_ITEM t' with
+                               | Some rest =>
+                                   match items n' rest with Some (xs, rest') => Some (x :: xs, rest') | None => None end
+                               | None => None
+                               end
+                           end
+                       | None => None
+                       end
+                   end) (List.length r + 1)%nat r
+                with Some (xs, rest) => Some (JList xs, rest) | None => None end
+            end
+          else if Z.eqb c LBR then
+            match strip_prefix [RBR] r with
+            | Some rest => Some (JDict [], rest)
+            | None =>
+                match
+                (fix pairs (n : nat) (t : text) : option (list (text * jvalue) * text) :=
+                   match n with
+                   | O => None
+                   | S n' =>
+                       match strip_prefix [34] t with
+                       | Some t1 =>
+                           match parse_string_body (List.length t1 + 1) t1 with
+                           | Some (k, t1') =>
+                               match strip_prefix SEP_KEY t1' with
+                               | Some t2 =>
+                                   match parse_value f t2 with
+                                   | Some (x, t') =>
+                                       match strip_prefix [RBR] t' with
+                                       | Some rest => Some ([(k, x)], rest)
+                                       | None =>
+                                           match strip_prefix SEP_ITEM t' with
+                                           | Some rest =>
+                                               match pairs n' rest with
+                                               | Some (xs, rest') => Some ((k, x) :: xs, rest')
+                                               | None => None
+                                               end
+                                           | None => None
+                                           end
+                                       end
+                                   | None => None
+                                   end
+                               | None => None
+                               end
+                           | None => None
+                           end
+                       | None => None
+                       end
+                   end) (List.length r + 1)%nat r
+                with Some (xs, rest) => Some (JDict xs, rest) | None => None end
+            end
+          else if Z.eqb c 110 then
+            match strip_prefix [110; 117; 108; 108] t with Some rest => Some (JNull, rest) | None => None end
+          else if Z.eqb c 116 then
+            match strip_prefix [116; 114; 117; 101] t with Some rest => Some (JBool true, rest) | None => None end
+          else if Z.eqb c 102 then
+            match strip_prefix [102; 97; 108; 115; 101] t with Some rest => Some (JBool false, rest) | None => None end
+          else
+            let '(tok, rest) := span_num t in
+            match tok with [] => None | _ => Some (JNum tok, rest) end
+      end
+  end.
+
+Definition loads (t : text) : option jvalue :=
+  match parse_value (List.length t + 1) t with
+  | Some (v, []) => Some v
+  | _ => None
+  end.
+
+(* ==== the Reporter on JSON values ============================================ *)
+Definition ST_WORKER_TIMESTAMP : text := Eval vm_compute in codes "st_worker_timestamp".
+Definition ST_WORKER_TIME : text := Eval vm_compute in codes "st_worker_time".
+Definition ST_WORKER_COST : text := Eval vm_compute in codes "st_worker_cost".
+Definition ST_WORKER_ITER : text := Eval vm_compute in codes "st_worker_iter".
+
+(* str(int) for the counter *)
+Fixpoint dec_aux (fuel : nat) (n : Z) (acc : text) : text :=
+  match fuel with
+  | O => acc
+  | S f => let acc' := (48 + n mod 10) :: acc in
+           if Z.ltb n 10 then acc' else dec_aux f (n / 10) acc'
+  end.
+Definition dec_nat (k : nat) : text := dec_aux (S k) (Z.of_nat k) [].
+
+(* the clock readings of one call, as number tokens: time(), perf_counter() - start,
+   and seconds_spent * dollar_cost when the instance type is known *)
+Record clock := { ck_timestamp : text; ck_time : text; ck_cost : option text }.
+
+(* kwargs[ST_WORKER_TIMESTAMP] = ...; if add_time: [TIME], [COST]; kwargs[ST_WORKER_ITER] = self.iter
+   (the user's keys cannot collide: st_ keys were rejected, so these are appended in this order) *)
+Definition reserved_fields (add_time : bool) (ck : clock) (k : nat) : list (text * jvalue) :=
+  ((ST_WORKER_TIMESTAMP, JNum (ck_timestamp ck)) ::
+   (if add_time then
+      (ST_WORKER_TIME, JNum (ck_time ck)) ::
+      match ck_cost ck with Some c => [(ST_WORKER_COST, JNum c)] | None => [] end
+    else []) ++
+   [(ST_WORKER_ITER, JNum (dec_nat k))])%list.
+
+Definition is_null (v : jvalue) : bool := match v with JNull => true | _ => false end.
+
+(* sys.getsizeof of a compact ASCII str (CPython 3.12): 41 bytes + one per character.
+   The payload is ASCII-only, so this is the size the limit is compared with. *)
+Definition ascii_str_sizeof (p : text) : Z := 41 + Z.of_nat (List.length p).
+
+Definition report_dict (add_time : bool) (ck : clock) (kw : list (text * jvalue)) (k : nat) : jvalue :=
+  JDict (kw ++ reserved_fields add_time ck k)%list.
+
+(* a call with JSON-valued keyword arguments, as a request of the abstract Reporter above *)
+Definition to_request (add_time : bool) (ck : clock) (kw : list (text * jvalue)) : request :=
+  {| rq_keys := map fst kw;
+     rq_none := map (fun kv => is_null (snd kv)) kw;
+     rq_dump := fun k => let p := dumps (report_dict add_time ck kw k) in Some (p, ascii_str_sizeof p) |}.
+
+Inductive cevent :=
+| CSay (s : text)
+| CCall (ck : clock) (kw : list (text * jvalue)).
+Definition to_event (add_time : bool) (e : cevent) : event :=
+  match e with CSay s => Say s | CCall ck kw => Call (to_request add_time ck kw) end.
+
+(* what the tuner ends up with: every payload parsed *)
+Definition loads_all (ps : list text) : list (option jvalue) := map loads ps.
+
+Fixpoint jvalue_eqb (a b : jvalue) : bool :=
+  match a, b with
+  | JNull, JNull => true
+  | JBool x, JBool y => Bool.eqb x y
+  | JNum s, JNum t => list_eqb Z.eqb s t
+  | JStr s, JStr t => list_eqb Z.eqb s t
+  | JList l, JList m =>
+      (fix go (l m : list jvalue) : bool :=
+         match l, m with
+         | [], [] => true
+         | x :: l', y :: m' => jvalue_eqb x y && go l' m'
+         | _, _ => false
+         end) l m
+  | JDict l, JDict m =>
+      (fix go (l m : list (text * jvalue)) : bool :=
+         match l, m with
+         | [], [] => true
+         | (k, x) :: l', (j, y) :: m' => list_eqb Z.eqb k j && jvalue_eqb x y && go l' m'
+         | _, _ => false
+         end) l m
+  | _, _ => false
+  end.
